@@ -8,4 +8,4 @@ Separate Extraction
   BinInt.Z.add BinNat.N.add BinNat.N.eqb Nat.add
   Lint.DeadCode.find_unused_declarations Lint.DeadCode.group_events Lint.DeadCode.wf_events_b
   Lint.DeadCode.lint Lint.DeadCode.lint_history Lint.DeadCode.can_be_locally_unused
-  Lint.DeadCode.eid Lint.DeadCode.diags_of.
+  Lint.DeadCode.eid Lint.DeadCode.diags_of Lint.DeadCode.config_append Lint.DeadCode.cm_get.
